@@ -3,17 +3,19 @@
 // It builds the control-flow graph (golang.org/x/tools/go/cfg) of
 //   - the reload worker closure of (*Runner).Run  (`for req := range reloadManager.reloadReqs { ... }`) and
 //   - the main signal loop                         (`loop: for { select { case sig := <-sigs: ... case <-runStateChanges: ... } }`),
+//
 // enumerates ALL acyclic paths of one loop iteration and projects every path onto the sequence of PRIMITIVE
 // EVENTS it contains (calls on the reloadManager, reloadActive/reloading stores, setRunSignalProgress,
 // clearReloadPending, notifyRunStateChange, goroutine spawns, waitReloadReadyOrSignal, ...).
 //
 // Conditions are split into atoms with Go's short-circuit semantics. An atom is
 //   - REAL   when it only mentions values the model owns for real (req, sig, handoff==nil, reloadErr, waitResult,
-//            termSig, getters of the real reloadManager): it becomes a guard step evaluated at run time on the real
-//            manager, at the position where the source evaluates it;
+//     termSig, getters of the real reloadManager): it becomes a guard step evaluated at run time on the real
+//     manager, at the position where the source evaluates it;
 //   - OPAQUE otherwise (outcome of building control planes, listeners, config parsing ...): both outcomes are
-//            explored. Correlation rule: an opaque, call-free atom evaluated twice on a path without an intervening
-//            assignment to one of its identifiers must agree (x != y is normalised to !(x == y)).
+//     explored. Correlation rule: an opaque, call-free atom evaluated twice on a path without an intervening
+//     assignment to one of its identifiers must agree (x != y is normalised to !(x == y)).
+//
 // Paths whose projections coincide are merged. The output is Go source: one step list per projected path whose
 // steps CALL THE REAL PRIMITIVES on the harness's real reloadManager.
 //
@@ -83,6 +85,7 @@ type path struct {
 	exit  string   // "" = back to the loop head; otherwise why the process leaves the loop
 	trace []string // opaque decisions taken (first representative)
 	raw   int
+	sites map[int]bool // source line of the last event of every CFG path merged into this projection
 }
 
 // ---- identifiers the model owns for real ---------------------------------------------------------
@@ -99,11 +102,11 @@ var realVarRename = map[string]string{
 var sensitive = map[string]bool{"reloadManager": true, "runStateChanges": true, "reloadReqs": true}
 
 var getters = map[string]bool{
-	"reloadManager.reloading.Load":               true,
-	"reloadManager.reloadActive.Load":            true,
-	"reloadManager.reloadPending.Load":           true,
-	"reloadManager.currentPendingStagedHandoff":  true,
-	"reloadManager.reloadError":                  true,
+	"reloadManager.reloading.Load":              true,
+	"reloadManager.reloadActive.Load":           true,
+	"reloadManager.reloadPending.Load":          true,
+	"reloadManager.currentPendingStagedHandoff": true,
+	"reloadManager.reloadError":                 true,
 }
 
 var forbiddenDirect = map[string]bool{
@@ -739,11 +742,18 @@ func (w *walker) finish(p *pstate, exit string) {
 		ks = append(ks, s.key())
 	}
 	key := exit + "|" + strings.Join(ks, "|")
+	last := 0
+	for _, s := range p.steps {
+		if s.kind == kEv {
+			last = s.ln
+		}
+	}
 	if q, ok := w.paths[key]; ok {
 		q.raw++
+		q.sites[last] = true
 		return
 	}
-	w.paths[key] = &path{steps: p.steps, exit: exit, trace: p.trace, raw: 1}
+	w.paths[key] = &path{steps: p.steps, exit: exit, trace: p.trace, raw: 1, sites: map[int]bool{last: true}}
 	w.order = append(w.order, key)
 }
 
@@ -1102,7 +1112,7 @@ func retirementSkeleton(repo string) string {
 		got := strings.Join(sk, " ; ")
 		want := "retirementDone := make(chan struct{}) ; m.mu.Lock() ; m.pendingRetirementDone = retirementDone ; m.mu.Unlock() ; go func(done) ; defer close(done) ; oldCancel()"
 		if got != want {
-			die("reload_manager.go: startControlPlaneRetirement skeleton changed:\n  got  %s\n  want %s\nthe C20 harness (retirement gate through oldCancel, channel read back from pendingRetirementDone) must be revisited", got, want)
+			die("reload_manager.go: startControlPlaneRetirement skeleton changed:\n  got  %s\n  want %s\nthe C20 harness (real retirement goroutine on a zero control plane, its end gated through the oldCancel callback) must be revisited", got, want)
 		}
 		return got
 	}
@@ -1115,7 +1125,12 @@ func retirementSkeleton(repo string) string {
 func emitPaths(b *bytes.Buffer, varName, role, prefix string, ps []*path) {
 	fmt.Fprintf(b, "var %s = []*c20Path{\n", varName)
 	for i, p := range ps {
-		fmt.Fprintf(b, "\t{ID: %q, Role: %q, Exit: %q, Raw: %d, Decisions: %q, Steps: []c20Step{\n", fmt.Sprintf("%s%d", prefix, i+1), role, p.exit, p.raw, strings.Join(p.trace, " "))
+		var sites []int
+		for l := range p.sites {
+			sites = append(sites, l)
+		}
+		sort.Ints(sites)
+		fmt.Fprintf(b, "\t{ID: %q, Role: %q, Exit: %q, Raw: %d, Sites: %q, Decisions: %q, Steps: []c20Step{\n", fmt.Sprintf("%s%d", prefix, i+1), role, p.exit, p.raw, strings.Trim(fmt.Sprint(sites), "[]"), strings.Join(p.trace, " "))
 		for _, s := range p.steps {
 			if s.kind == kGuard {
 				fmt.Fprintf(b, "\t\t{Guard: true, N: %q, L: %d, Want: %v, Eval: func(h *c20H) bool { return %s }},\n", s.name, s.ln, s.want, s.code)
@@ -1281,5 +1296,4 @@ func main() {
 		}
 	}
 	fmt.Printf("c20gen: %s: raw acyclic paths worker=%d mainloop=%d -> projected worker=%d mainloop=%d (process-exit paths: %d)\n", fn.Name.Name, rawW, rawM, len(workerPaths), len(mainPaths), exits)
-	_ = sort.Strings
 }
